@@ -268,6 +268,21 @@ def t3_attr(sx, checksum_ok, nblocks, with_sys):
     return exercise(sx, w, "tt3:attribute-block", max_cmds=3 * 4200)
 
 
+def t3_nbr_big(sx):
+    """a checksum-valid attribute block that lets the reader ask for very
+    many blocks in one command (the block list does not fit one frame from
+    about 120 two-byte elements on)"""
+    w = worlds.T3World(sx, 4, 3, 5, 0, fill=0x40)
+    m = w.sim.mem
+    m[1] = sx.pick("nbr", [15, 16, 119, 120, 121, 122, 126, 127, 255])
+    m[3], m[4] = 0x00, 0xFF                        # Nmaxb 255
+    ln = sx.pick("ln", [1904, 1921, 2032, 4080])
+    m[11], m[12], m[13] = 0, ln >> 8, ln & 0xFF
+    cs = sum(m[0:14])
+    m[14], m[15] = (cs >> 8) & 0xFF, cs & 0xFF
+    return exercise(sx, w, "tt3:many-blocks-per-read", max_cmds=3 * 300)
+
+
 def t3_pmm(sx):
     """the PMm bytes that the reader turns into command time-outs, symbolic"""
     w = worlds.T3World(sx, 4, 3, 5, 20, fill=0x40)
@@ -458,6 +473,19 @@ def t4_mle_big(sx):
     return exercise(sx, w, "tt4:mle-above-256", max_cmds=400)
 
 
+def t4_len_edge(sx, ver):
+    """the stored length on both sides of what the file can hold (file size
+    minus the 2-byte NLEN / 4-byte ENLEN field), on a card whose memory goes
+    on behind the declared file size"""
+    mfs = 64
+    w = worlds.T4World(sx, ver, 255, 255, mfs, 3, fill=0x41, guard=8)
+    f = w.sim.files[0xE104]
+    nl = w.nl
+    n = mfs - nl + sx.pick("delta", [-1, 0, 1, 2, 3, 8])
+    f[nl - 2], f[nl - 1] = n >> 8, n & 0xFF
+    return exercise(sx, w, "tt4:length-at-file-end:%02x" % ver, avail=mfs - nl, max_cmds=200)
+
+
 def t4_v3_big(sx):
     """mapping version 3, NLEN above 65535, a card that serves any offset"""
     w = worlds.T4World(sx, 0x30, 255, 255, 16, 3, fill=0x41)
@@ -526,6 +554,7 @@ def partitions(tier):
                 add("t3:attr:%s:%d:%s" % (cs, nb, ws), "t3_attr", checksum_ok=cs, nblocks=nb, with_sys=ws)
     add("t3:gone", "t3_gone", n=40)
     add("t3:pmm", "t3_pmm")
+    add("t3:nbr-big", "t3_nbr_big")
     add("t3:poll:nosys", "t3_poll", with_sys=False)
     add("t3:poll:sys", "t3_poll", with_sys=True)
     for n in (0, 1, 9, 10, 11, 12, 13):
@@ -537,6 +566,8 @@ def partitions(tier):
         add("t4:cc:" + f, "t4_cc", field=f)
     add("t4:nlen", "t4_nlen")
     add("t4:mle-big", "t4_mle_big")
+    for ver in (0x20, 0x30):
+        add("t4:len-edge:%02x" % ver, "t4_len_edge", ver=ver)
     for tail in ("wtx", "ack", "gone"):
         add("t4:blocks:%s" % tail, "t4_blocks", nsym=1 if tier == "quick" else 2, tail=tail)
     add("t4:long-read", "t4_long_read")
